@@ -158,6 +158,7 @@ sig_idx = z3.Function('sig_idx', I, I, I)            # string id -> index or -1
 sig_vps = z3.Function('sig_vps', I, I)               # index of *args or -1
 sig_npos = z3.Function('sig_npos', I, I)             # number of PO + PK parameters
 sig_vk = z3.Function('sig_vk', I, I)                 # index of **kwargs or -1
+sig_npo = z3.Function('sig_npo', I, I)               # number of positional-only parameters
 
 
 def WF(g):
@@ -196,6 +197,13 @@ def WF(g):
       # derived: npos = number of PO/PK parameters (they form a prefix)
       0 <= sig_npos(g), sig_npos(g) <= n,
       z3.ForAll([i], z3.Implies(inr(i), (k(i) <= PK) == (i < sig_npos(g))), patterns=[k(i)]),
+      # consequences of the ordering (stated so that the solver need not find the instances):
+      # *args directly follows the PO/PK prefix, **kwargs is last
+      z3.Implies(sig_vps(g) >= 0, sig_vps(g) == sig_npos(g)),
+      z3.Implies(sig_vk(g) >= 0, sig_vk(g) == n - 1),
+      # derived: npo = number of PO parameters (a prefix as well)
+      0 <= sig_npo(g), sig_npo(g) <= sig_npos(g),
+      z3.ForAll([i], z3.Implies(inr(i), (k(i) == PO) == (i < sig_npo(g))), patterns=[k(i)]),
   )
 
 
